@@ -638,6 +638,21 @@ pub fn write_shard_result(dir: &Path, shard: u64, ctx: &Ctx, res: &ShardResult) 
 // ---------------------------------------------------------------------------------------------
 // replay files
 
+static CURRENT_TIER: std::sync::atomic::AtomicU8 = std::sync::atomic::AtomicU8::new(0);
+
+/// the tier this process generates cases for: replay files record it, because the tier fixes generator
+/// parameters (depth, collection sizes) and the same tape decodes to another case under the other tier
+pub fn set_current_tier(t: Tier) {
+    CURRENT_TIER.store(matches!(t, Tier::Thorough) as u8, std::sync::atomic::Ordering::Relaxed);
+}
+pub fn current_tier() -> Tier {
+    if CURRENT_TIER.load(std::sync::atomic::Ordering::Relaxed) == 1 {
+        Tier::Thorough
+    } else {
+        Tier::Quick
+    }
+}
+
 pub fn write_replay(prop: &str, sub: &str, input: &[u8], f: &Failure) -> PathBuf {
     let dir = Path::new(VERIF_DIR).join("replays").join(prop);
     let _ = std::fs::create_dir_all(&dir);
@@ -646,6 +661,7 @@ pub fn write_replay(prop: &str, sub: &str, input: &[u8], f: &Failure) -> PathBuf
     let v = json!({
         "property": prop,
         "subcheck": sub,
+        "tier": current_tier().name(),
         "input_hex": hex::encode(input),
         "signature": f.sig,
         "detail": f.detail,
@@ -661,6 +677,7 @@ pub struct ReplayFile {
     pub subcheck: String,
     pub input: Vec<u8>,
     pub signature: String,
+    pub tier: Tier,
 }
 
 pub fn read_replay(path: &Path) -> Option<ReplayFile> {
@@ -671,6 +688,7 @@ pub fn read_replay(path: &Path) -> Option<ReplayFile> {
         subcheck: v.get("subcheck")?.as_str()?.to_string(),
         input: hex::decode(v.get("input_hex")?.as_str()?).ok()?,
         signature: v.get("signature").and_then(|x| x.as_str()).unwrap_or("").to_string(),
+        tier: if v.get("tier").and_then(|x| x.as_str()) == Some("thorough") { Tier::Thorough } else { Tier::Quick },
     })
 }
 
